@@ -1,12 +1,12 @@
 SPECIFICATION FairSpec
 CONSTANTS
-  NA = 2
+  NA = 1
   Rounds = 2
-  PerRound = 1
+  PerRound = 2
   NotifyMode = "token"
-  TempApps = {1, 2}
-  TwoPhaseApps = {}
+  TempApps = {}
+  TwoPhaseApps = {1}
   ExitMode = "recheck"
-INVARIANTS FIFO DrainSound NoHang LockOK
+INVARIANTS FIFO DrainSound NoHang LockOK OneAtATime StageOK
 PROPERTIES FIFOStep DrainReturns
 CHECK_DEADLOCK FALSE
